@@ -47,6 +47,7 @@ structure Tgt where
   everOk   : Bool := false            -- ghost (no counterpart in the code or the output): some probe of this target succeeded
   interval : Nat
   hcTimeout : Nat
+  rt       : Nat := 0                 -- target timeout this target was created with (ns; 0 = none)
 deriving Repr
 
 structure Lb where
@@ -75,6 +76,7 @@ structure Obj where
   rollout : Option Nat := none
   gate    : Nat
   split   : Option Split := none
+  rt      : Nat := 0                  -- target (response header) timeout in ns; 0 = none
 deriving Repr
 
 inductive RPhase
@@ -95,6 +97,7 @@ structure Req where
   phase  : RPhase := .start
   parkedAt : Option String := none    -- armed hook it is parked at
   parkSeq : Nat := 0                  -- order of parking (hooks release first-come first-served)
+  rtDeadline : Option Nat := none     -- when the target timeout cuts this in-flight request (504)
 deriving Repr
 
 /-- one target's drain inside a command -/
@@ -319,19 +322,30 @@ def reqStep (w : World) (r : Req) : Option World :=
       match (if useRollout then o.rollout else o.active) with
       | none => none
       | some lb => some (reqAt w r (.picked oid lb) "req.picked")
-  | .picked _ lb =>
+  | .picked oid lb =>
     match claim w lb r.id with
     | (w1, none) => some (finishReq w1 r 503 "-")
     | (w1, some tid) =>
       match getT w1 tid with
       | none => none
       | some t =>
-        let w2 := emit (setR w1 { r with phase := .inflight tid }) s!"got {showB t.name} r{r.id}"
+        -- the target timeout runs from the moment the request is handed to the target
+        let dl := if t.rt = 0 then none else some (w.now + t.rt)
+        let w2 := emit (setR w1 { r with phase := .inflight tid, rtDeadline := dl }) s!"got {showB t.name} r{r.id}"
         if (scriptOf w t.name).hold then some w2
         else
           -- the target answers at once
           some (finishReq (setT w2 { t with inflight := t.inflight.erase r.id }) { r with phase := .inflight tid } 200 (showB t.name))
-  | .inflight _ => none
+  | .inflight tid =>
+    -- silent target: at the target timeout the proxy answers 504 and the request is over
+    match r.rtDeadline with
+    | none => none
+    | some d =>
+      if d ≤ w.now then
+        match getT w tid with
+        | none => none
+        | some t => some (finishReq (setT w { t with inflight := t.inflight.erase r.id }) r 504 "-")
+      else none
   | .done => none
 
 /-- the target answers a held request -/
@@ -418,21 +432,21 @@ def park (w : World) (c : Cmd) (label : String) (ph : CPhase) : World :=
 def finishCmd (w : World) (c : Cmd) (res : String) : World :=
   emit (setC w { c with phase := .returned, parkedAt := none }) s!"cmd c{c.id} res={res}"
 
-def newTargets (w : World) (lbId : Nat) (names : List Bytes) (interval hcTimeout : Nat) : World × List Nat :=
+def newTargets (w : World) (lbId : Nat) (names : List Bytes) (interval hcTimeout : Nat) (rt : Nat := 0) : World × List Nat :=
   names.foldl (fun (acc : World × List Nat) n =>
     let w := acc.1
-    let t : Tgt := { id := w.next, name := n, lb := lbId, nextTick := w.now, tickBuf := true, interval := interval, hcTimeout := hcTimeout }
+    let t : Tgt := { id := w.next, name := n, lb := lbId, nextTick := w.now, tickBuf := true, interval := interval, hcTimeout := hcTimeout, rt := rt }
     ({ w with tgts := w.tgts ++ [t], next := w.next + 1 }, acc.2 ++ [t.id])) (w, [])
 
 def hcInterval : Nat := 1000000000
 def hcTimeoutNs : Nat := 300000000
 
 /-- start a deploy / rollout-deploy thread: `findOrCreateService`, `NewLoadBalancer` -/
-def startDeploy (w : World) (cid : Nat) (svc host : Bytes) (slot : Bool) (targets : List Bytes) (dt drt : Nat) : World :=
-  let mk (w : World) (oid : Nat) : World :=
+def startDeploy (w : World) (cid : Nat) (svc host : Bytes) (slot : Bool) (targets : List Bytes) (dt drt : Nat) (rt : Nat := 0) : World :=
+  let mk (w : World) (oid : Nat) (trt : Nat) : World :=
     let lbId := w.next
     let w1 := { w with next := w.next + 1 }
-    let (w2, tids) := newTargets w1 lbId targets hcInterval hcTimeoutNs
+    let (w2, tids) := newTargets w1 lbId targets hcInterval hcTimeoutNs trt
     let nl : Lb := { id := lbId, targets := tids }
     let w3 := { w2 with lbs := w2.lbs ++ [nl] }
     let c : Cmd := { id := cid, svc := svc, kind := CKind.deploy slot targets, drt := drt, phase := .waiting oid lbId (w.now + dt) }
@@ -440,17 +454,17 @@ def startDeploy (w : World) (cid : Nat) (svc host : Bytes) (slot : Bool) (target
   if slot then
     match installedObj w svc with
     | none => emit w s!"cmd c{cid} res=notFound"
-    | some o => mk w o.id
+    | some o => mk w o.id o.rt      -- a rollout deploy creates its targets with the installed service's target options
   else
     match installedObj w svc with
     | some o =>
       -- CopyWithOptions: a new object sharing load balancers and gate, copying the split
-      let o' : Obj := { o with id := w.next, host := host }
-      mk { w with objs := w.objs ++ [o'], next := w.next + 1 } o'.id
+      let o' : Obj := { o with id := w.next, host := host, rt := rt }
+      mk { w with objs := w.objs ++ [o'], next := w.next + 1 } o'.id rt
     | none =>
       let g : Gate := { id := w.next }
-      let o' : Obj := { id := w.next + 1, name := svc, host := host, gate := g.id }
-      mk { w with gates := w.gates ++ [g], objs := w.objs ++ [o'], next := w.next + 2 } o'.id
+      let o' : Obj := { id := w.next + 1, name := svc, host := host, gate := g.id, rt := rt }
+      mk { w with gates := w.gates ++ [g], objs := w.objs ++ [o'], next := w.next + 2 } o'.id rt
 
 /-- `ServiceMap.Set`: one update of the table entry of that name -/
 def installTable (tbl : List (Bytes × Nat)) (name : Bytes) (oid : Nat) : List (Bytes × Nat) :=
@@ -541,7 +555,7 @@ def settle : Nat → World → World
 def nextTimer (w : World) : Option Nat :=
   let ts := w.tgts.filterMap (fun t => if t.alive then some t.nextTick else none) ++
     w.tgts.filterMap (fun t => match t.loop with | .hanging u => if t.alive then some u else none | _ => none) ++
-    w.reqs.filterMap (fun r => match r.phase with | .held _ _ d => some d | _ => none) ++
+    w.reqs.filterMap (fun r => match r.phase with | .held _ _ d => some d | .inflight _ => r.rtDeadline | _ => none) ++
     w.cmds.flatMap (fun c => match c.phase with
       | .waiting _ _ d => [d]
       | .draining _ ds _ => ds.filterMap fun d => if d.phase = 0 then some d.deadline else none
@@ -566,7 +580,7 @@ inductive Op
   | hold (name : Bytes) (v : Bool)
   | arm (label : String)
   | disarm (label : String)
-  | deploy (c : Nat) (svc host : Bytes) (rollout : Bool) (targets : List Bytes) (dt drt : Nat)
+  | deploy (c : Nat) (svc host : Bytes) (rollout : Bool) (targets : List Bytes) (dt drt : Nat) (rt : Nat := 0)
   | pause (c : Nat) (svc : Bytes) (drt failAfter : Nat)
   | stop (c : Nat) (svc : Bytes) (drt : Nat) (msg : Bytes)
   | resume (c : Nat) (svc : Bytes)
@@ -653,7 +667,7 @@ def applyOp (w : World) : Op → World
   | .hold n v => settle fuel (setScript w n fun s => { s with hold := v })
   | .arm l => settle fuel { w with armed := if w.armed.contains l then w.armed else w.armed ++ [l] }
   | .disarm l => settle fuel { w with armed := w.armed.filter (· ≠ l) }
-  | .deploy c svc host rollout ts dt drt => settle fuel (startDeploy w c svc host rollout ts dt drt)
+  | .deploy c svc host rollout ts dt drt rt => settle fuel (startDeploy w c svc host rollout ts dt drt rt)
   | .pause c svc drt fa =>
     settle fuel (withInstalled w c svc fun o =>
       match getG w o.gate with
